@@ -734,6 +734,25 @@ func runRoutable(fields []string) string {
 			oracles = append(oracles, "after registering and deleting neighbours Reverse answers "+lkResult(r2, t2))
 		}
 	}
+	// the same instance again, several times on the same tree (pooled contexts and sub-contexts are reused now), and as a
+	// request whose URL carries it in RawPath (what a server hands over when the target contains escapes)
+	for k := 0; k < 4; k++ {
+		req := newReq("GET", host, path)
+		if k == 3 {
+			req = newReq("GET", host, "/zzdecoded")
+			req.URL.RawPath = path
+		}
+		got3, cc3, tsr3 := f.Lookup(foxWriter{newRecWriter()}, req)
+		var ps3 []fox.Param
+		if cc3 != nil {
+			ps3 = slices.Collect(cc3.Params())
+			cc3.Close()
+		}
+		if I3 := showLookup(got3, ps3, tsr3); I3 != I {
+			oracles = append(oracles, fmt.Sprintf("lookup #%d of the same instance (RawPath form: %v) is answered %s instead of %s", k+2, k == 3, I3, I))
+			break
+		}
+	}
 	out := "I=" + I + "\tJ=routed"
 	if len(oracles) > 0 {
 		out += "\tO=" + strings.Join(oracles, " ;; ")
